@@ -86,3 +86,183 @@ package core
 //@ func (*ClientContext).Clone
 //@   havoc
 //@   ensures typeis(result, *ClientContext) && result != nil
+
+// ---- plugin managers (C15) ---------------------------------------------
+//
+// View of a pluginManager: the sequence pm.handlers. Well-formedness:
+//   pm.handler == fold(handlers) with fold([]) = defaultHandler and
+//   fold(h:rest) = getNextHandler(h, fold(rest))      (spec: pfold_t/pfold_v)
+// handlers and handler are guarded by the embedded RWMutex.
+
+//@ guarded pluginManager.handlers by RWMutex
+//@ guarded pluginManager.handler by RWMutex
+//@ fieldfunc pluginManager.getNextHandler GetNextFunc
+
+//@ type GetNextFunc(handler, next) (result)
+//@   ensures typeof(result) == gnh_t(ref(self_fn), typeof(handler), ival(handler), typeof(next), ival(next))
+//@   ensures ival(result) == gnh_v(ref(self_fn), typeof(handler), ival(handler), typeof(next), ival(next))
+
+//@ func (*pluginManager).rebuildHandler
+//@   prop C15
+//@   requires pm != nil && ghost.held[addr(pm.RWMutex)] == 1
+//@   modifies pm.handler
+//@   let n0 = len(pm.handlers)
+//@   loop 1 invariant -1 <= i && i < n && n == len(pm.handlers) && ghost.held[addr(pm.RWMutex)] == 1
+//@   loop 1 invariant [chain_suffix] typeof(next) == pfold_t(ref(pm.getNextHandler), elems(pm.handlers), off(pm.handlers), i + 1, n, pm.defaultHandler) &&
+//@       ival(next) == pfold_v(ref(pm.getNextHandler), elems(pm.handlers), off(pm.handlers), i + 1, n, pm.defaultHandler)
+//@   ensures [wf] typeof(pm.handler) == pfold_t(ref(pm.getNextHandler), elems(pm.handlers), off(pm.handlers), 0, len(pm.handlers), pm.defaultHandler) &&
+//@       ival(pm.handler) == pfold_v(ref(pm.getNextHandler), elems(pm.handlers), off(pm.handlers), 0, len(pm.handlers), pm.defaultHandler)
+
+//@ func (*pluginManager).Handler
+//@   prop C15
+//@   nopanic
+//@   requires pm != nil
+//@   modifies ghost.held[addr(pm.RWMutex)]
+//@   ensures [returns_the_current_chain] same(result, pm.handler)
+//@   ensures [lock_released] ghost.held[addr(pm.RWMutex)] == 0
+
+// Use: handlers' = handlers ++ args, chain rebuilt.
+//@ func (*pluginManager).Use
+//@   prop C15
+//@   requires pm != nil
+//@   modifies pm.handlers, pm.handler, pm.handlers[*], ghost.held[addr(pm.RWMutex)]
+//@   ensures [length_grows_by_arguments] len(pm.handlers) == old(len(pm.handlers)) + len(handler)
+//@   ensures [installed_keep_their_place] forall(k, 0, old(len(pm.handlers)), same(pm.handlers[k], old(pm.handlers[k])))
+//@   ensures [arguments_appended_in_order] forall(k, 0, len(handler), same(pm.handlers[old(len(pm.handlers)) + k], old(handler[k])))
+//@   ensures [wf] typeof(pm.handler) == pfold_t(ref(pm.getNextHandler), elems(pm.handlers), off(pm.handlers), 0, len(pm.handlers), pm.defaultHandler) &&
+//@       ival(pm.handler) == pfold_v(ref(pm.getNextHandler), elems(pm.handlers), off(pm.handlers), 0, len(pm.handlers), pm.defaultHandler)
+//@   ensures [lock_released] ghost.held[addr(pm.RWMutex)] == 0
+//@   ensures_panic [lock_released_on_panic] ghost.held[addr(pm.RWMutex)] == 0
+
+// Unuse: removes every installed handler that matches one of the arguments
+// (the code compares reflect.ValueOf(h).Pointer(), spec: codeptr), keeps the
+// others in their order, rebuilds the chain.
+//@ func (*pluginManager).Unuse
+//@   prop C15
+//@   requires pm != nil
+//@   modifies pm.handlers, pm.handler, ghost.held[addr(pm.RWMutex)]
+//@   loop 1 invariant [bounds] 0 <= rangeindex + 1 && rangeindex + 1 <= len(pm.handlers) && ghost.held[addr(pm.RWMutex)] == 1 &&
+//@       same(pm.handlers, old(pm.handlers)) && len(handlers) <= rangeindex + 1 && (handlers == nil || isnew(handlers))
+//@   loop 1 invariant [installed_untouched] forall(j, 0, len(pm.handlers), same(pm.handlers[j], old(pm.handlers[j])))
+//@   loop 1 invariant [arguments_untouched] forall(m, 0, len(handler), same(handler[m], old(handler[m])))
+//@   loop 1 invariant [no_match_kept] forall(k, 0, len(handlers),
+//@       !matches_from(old(elems(handler)), off(handler), 0, len(handler), typeof(handlers[k]), ival(handlers[k])))
+//@   loop 1 invariant [kept_so_far] len(handlers) == kept_count(old(elems(pm.handlers)), off(pm.handlers), rangeindex + 1, old(elems(handler)), off(handler), len(handler))
+//@   loop 2 invariant [bounds] 0 <= rangeindex + 1 && rangeindex + 1 <= len(handler) && ghost.held[addr(pm.RWMutex)] == 1
+//@   loop 2 invariant [rest_decides] matches_from(old(elems(handler)), off(handler), 0, len(handler), typeof(h), ival(h)) ==
+//@       matches_from(old(elems(handler)), off(handler), rangeindex + 1, len(handler), typeof(h), ival(h))
+//@   ensures [no_matching_handler_remains] forall(k, 0, len(pm.handlers),
+//@       !matches_from(old(elems(handler)), off(handler), 0, len(handler), typeof(pm.handlers[k]), ival(pm.handlers[k])))
+//@   ensures [every_unmatched_handler_is_kept] len(pm.handlers) ==
+//@       kept_count(old(elems(pm.handlers)), old(off(pm.handlers)), old(len(pm.handlers)), old(elems(handler)), off(handler), len(handler))
+//@   ensures [lock_released] ghost.held[addr(pm.RWMutex)] == 0
+
+// The two getNextHandler implementations: the handler they build calls the
+// plugin handler h exactly once, hands it n as `next`, and returns its
+// results unchanged. With the fold above: each installed handler runs exactly
+// once per call, first added outermost, results travel back in reverse
+// (short-circuiting or altering the call is whatever h itself does).
+//
+//@ ghost hcalls int
+//@ ghost h_next_invoke NextInvokeHandler
+//@ ghost h_next_io NextIOHandler
+
+//@ type InvokeHandler(ctx, name, args, next) (result, err)
+//@   havoc
+//@   modifies ghost.hcalls, ghost.h_next_invoke, ghost.ret_result, ghost.ret_err
+//@   ensures ghost.hcalls == old(ghost.hcalls) + 1 && ghost.h_next_invoke == next
+//@   ensures same(result, ghost.ret_result) && same(err, ghost.ret_err)
+//@   ensures_panic ghost.hcalls == old(ghost.hcalls) + 1 && ghost.h_next_invoke == next
+
+//@ type IOHandler(ctx, request, next) (response, err)
+//@   havoc
+//@   modifies ghost.hcalls, ghost.h_next_io, ghost.ret_response, ghost.ret_err
+//@   ensures ghost.hcalls == old(ghost.hcalls) + 1 && ghost.h_next_io == next
+//@   ensures same(response, ghost.ret_response) && same(err, ghost.ret_err)
+//@   ensures_panic ghost.hcalls == old(ghost.hcalls) + 1 && ghost.h_next_io == next
+
+//@ func NewInvokeManager$1$1
+//@   prop C15
+//@   havoc
+//@   stable h, n
+//@   modifies ghost.hcalls, ghost.h_next_invoke, ghost.ret_result, ghost.ret_err
+//@   ensures [calls_the_handler_exactly_once] ghost.hcalls == old(ghost.hcalls) + 1
+//@   ensures_panic [calls_the_handler_exactly_once_on_panic] ghost.hcalls == old(ghost.hcalls) + 1
+//@   ensures [hands_it_the_next_handler] ghost.h_next_invoke == n
+//@   ensures [returns_its_results_unchanged] same(result, ghost.ret_result) && same(err, ghost.ret_err)
+
+//@ func NewIOManager$1$1
+//@   prop C15
+//@   havoc
+//@   stable h, n
+//@   modifies ghost.hcalls, ghost.h_next_io, ghost.ret_response, ghost.ret_err
+//@   ensures [calls_the_handler_exactly_once] ghost.hcalls == old(ghost.hcalls) + 1
+//@   ensures_panic [calls_the_handler_exactly_once_on_panic] ghost.hcalls == old(ghost.hcalls) + 1
+//@   ensures [hands_it_the_next_handler] ghost.h_next_io == n
+//@   ensures [returns_its_results_unchanged] same(response, ghost.ret_response) && same(err, ghost.ret_err)
+
+// in-flight calls hold the closure they read under the lock; closures never change after construction
+//@ rule closure_immutable NewInvokeManager$1 NewInvokeManager$1$1 NewIOManager$1 NewIOManager$1$1 prop=C15
+
+// SeparatePluginHandlers: classification into fresh lists; the caller's slice is not written.
+//@ func SeparatePluginHandlers
+//@   prop C15
+//@   modifies nothing
+//@   loop 1 invariant -1 <= rangeindex && rangeindex <= len(handlers) - 1 &&
+//@       (invokeHandlers == nil || isnew(invokeHandlers)) && (ioHandlers == nil || isnew(ioHandlers)) &&
+//@       len(invokeHandlers) + len(ioHandlers) >= rangeindex + 1 && len(invokeHandlers) <= rangeindex + 1 && len(ioHandlers) <= rangeindex + 1
+//@   ensures [results_are_fresh] (invokeHandlers == nil || isnew(invokeHandlers)) && (ioHandlers == nil || isnew(ioHandlers))
+//@   ensures [every_handler_classified] len(invokeHandlers) + len(ioHandlers) >= len(handlers) &&
+//@       len(invokeHandlers) <= len(handlers) && len(ioHandlers) <= len(handlers)
+
+// Client/Service: each list goes to its own manager.
+//@ iface PluginManager.Use(self, handler)
+//@   havoc
+//@   modifies ghost.pm_use_calls[ival(self)], ghost.pm_use_arg[ival(self)]
+//@   ensures ghost.pm_use_calls[ival(self)] == old(ghost.pm_use_calls[ival(self)]) + 1 && same(ghost.pm_use_arg[ival(self)], handler)
+//@ iface PluginManager.Unuse(self, handler)
+//@   havoc
+//@   modifies ghost.pm_unuse_calls[ival(self)], ghost.pm_unuse_arg[ival(self)]
+//@   ensures ghost.pm_unuse_calls[ival(self)] == old(ghost.pm_unuse_calls[ival(self)]) + 1 && same(ghost.pm_unuse_arg[ival(self)], handler)
+//@ ghost pm_use_calls @int
+//@ ghost pm_unuse_calls @int
+//@ ghost pm_use_arg @[]PluginHandler
+//@ ghost pm_unuse_arg @[]PluginHandler
+
+//@ func (*Client).Use
+//@   prop C15
+//@   havoc
+//@   modifies ghost.pm_use_calls[*], ghost.pm_use_arg[*]
+//@   requires c != nil && ival(c.invokeManager) != ival(c.ioManager)
+//@   stable c.invokeManager, c.ioManager
+//@   ensures [invoke_handlers_to_invoke_manager] ghost.pm_use_calls[ival(c.invokeManager)] <= old(ghost.pm_use_calls[ival(c.invokeManager)]) + 1
+//@   ensures [io_handlers_to_io_manager] ghost.pm_use_calls[ival(c.ioManager)] <= old(ghost.pm_use_calls[ival(c.ioManager)]) + 1
+//@   ensures [nothing_unused] ghost.pm_unuse_calls[ival(c.invokeManager)] == old(ghost.pm_unuse_calls[ival(c.invokeManager)]) &&
+//@       ghost.pm_unuse_calls[ival(c.ioManager)] == old(ghost.pm_unuse_calls[ival(c.ioManager)])
+
+//@ func (*Client).Unuse
+//@   prop C15
+//@   havoc
+//@   modifies ghost.pm_unuse_calls[*], ghost.pm_unuse_arg[*]
+//@   requires c != nil && ival(c.invokeManager) != ival(c.ioManager)
+//@   stable c.invokeManager, c.ioManager
+//@   ensures [nothing_installed] ghost.pm_use_calls[ival(c.invokeManager)] == old(ghost.pm_use_calls[ival(c.invokeManager)]) &&
+//@       ghost.pm_use_calls[ival(c.ioManager)] == old(ghost.pm_use_calls[ival(c.ioManager)])
+
+//@ func (*Service).Use
+//@   prop C15
+//@   havoc
+//@   modifies ghost.pm_use_calls[*], ghost.pm_use_arg[*]
+//@   requires s != nil && ival(s.invokeManager) != ival(s.ioManager)
+//@   stable s.invokeManager, s.ioManager
+//@   ensures [nothing_unused] ghost.pm_unuse_calls[ival(s.invokeManager)] == old(ghost.pm_unuse_calls[ival(s.invokeManager)]) &&
+//@       ghost.pm_unuse_calls[ival(s.ioManager)] == old(ghost.pm_unuse_calls[ival(s.ioManager)])
+
+//@ func (*Service).Unuse
+//@   prop C15
+//@   havoc
+//@   modifies ghost.pm_unuse_calls[*], ghost.pm_unuse_arg[*]
+//@   requires s != nil && ival(s.invokeManager) != ival(s.ioManager)
+//@   stable s.invokeManager, s.ioManager
+//@   ensures [nothing_installed] ghost.pm_use_calls[ival(s.invokeManager)] == old(ghost.pm_use_calls[ival(s.invokeManager)]) &&
+//@       ghost.pm_use_calls[ival(s.ioManager)] == old(ghost.pm_use_calls[ival(s.ioManager)])
